@@ -16,6 +16,7 @@ import GocoinV.Proofs.C15Wif
 import GocoinV.Proofs.C15P2pk
 import GocoinV.Proofs.C15Bch2
 import GocoinV.Proofs.C15Bch3
+import GocoinV.Proofs.C15Reuse
 namespace GocoinV.Props.C15
 open GocoinV Bech32
 
@@ -461,6 +462,85 @@ theorem segwit_detects_le3_substitutions (hrp s s' p p' : Bytes) (v : Nat)
   subst this
   exact Bech32.detect_gen 3 Bech32.pf_detect3 s s' hrp d d' m hdec hdec' hlen hd
 
+/-! ### one BtcAddr object used over time (Model/AddrObj.lean)
+
+The callers that re-point an existing object (client/usif/textui/wallet.go `list_unspent`, tools/tap2old) assign
+exported fields between calls. In the model `String()` / `OutScript()` are functions of the exported fields alone
+(`Addr.Obj` has no other component); the harness stream `hist` checks that of the real code by running every history
+also on a new object built from the exported fields, and against `Obj.trace`. -/
+
+/-- What the two methods may change: `String()` leaves SegwitProg, Version and Hash160 as they are (it writes only
+    the caches Enc58str and Checksum), and `OutScript()` writes nothing at all. -/
+theorem reuse_calls_change_only_caches (H : Addr.Hashes) (o : Addr.Obj) :
+    (o.string H).2.seg = o.seg ∧ (o.string H).2.ver = o.ver ∧ (o.string H).2.h160 = o.h160 ∧
+    o.apply H .callOutScript = o := by
+  have h := Addr.Obj.string_core H o
+  simp only [Addr.Obj.core, Prod.mk.injEq] at h
+  exact ⟨h.1, h.2.1, h.2.2, rfl⟩
+
+/-- `OutScript()` has no memory, for EVERY history (any assignments of SegwitProg / Enc58str / Checksum / Version /
+    Hash160 interleaved with any calls of `String()` and `OutScript()`, caches reset or not): its result at the end
+    is the result on the object that received only the assignments — no earlier call of either method changes it —
+    and it is `outScript` of the destination the exported fields then denote. -/
+theorem reuse_outscript_ignores_earlier_calls (H : Addr.Hashes) (ops : List Addr.Op) (o : Addr.Obj) :
+    (Addr.Obj.exec H ops o).outScript = (Addr.Obj.exec H (ops.filter (fun op => !op.isCall)) o).outScript ∧
+    (Addr.Obj.exec H ops o).outScript = Addr.outScript (Addr.Obj.exec H ops o).dest := by
+  refine ⟨?_, rfl⟩
+  unfold Addr.Obj.outScript
+  rw [Addr.Obj.dest_of_core (Addr.Obj.exec_core_filter H ops o o rfl)]
+
+/-- The re-use idiom is sound. Start from a coherent object (caches empty or holding what `String()` computes from
+    the other fields: every newly constructed or parsed address, see `reuse_start_coherent`), run ANY history written
+    in the callers' idiom — re-pointing always resets Enc58str (and Checksum when Version/Hash160 are assigned), calls
+    of `String()` / `OutScript()` in any number and order — that ends with "point the object to destination `d`, then
+    any calls". Then the next `String()` and `OutScript()` are exactly those of a new address for `d` (to which
+    `addr_string_roundtrip` / `addr_script_roundtrip` apply), and the object is coherent again. -/
+theorem reuse_idiom_gives_fresh_results (H : Addr.Hashes) (hH : ∀ x, (H.sha2sum x).length = 32) (o : Addr.Obj)
+    (hc : o.Coherent H) (pre : List Addr.Reuse) (d : Addr.Dest) (cs : List Addr.Reuse)
+    (hcs : ∀ s ∈ cs, s.isCall = true) :
+    let o' := Addr.Obj.reuse H (pre ++ Addr.Reuse.point d :: cs) o
+    (o'.string H).1 = (Addr.toString H d.addr).getD [] ∧ o'.outScript = Addr.outScript d.addr ∧ o'.Coherent H :=
+  Addr.Obj.reuse_point_then_calls H hH o hc pre d cs hcs
+
+/-- non-vacuity: `new(BtcAddr)` is coherent; the history of `list_unspent` (OutScript, point to P2TR, String,
+    OutScript, point to P2WPKH, OutScript) is an idiom history whose suffix is calls only -/
+example (H : Addr.Hashes) : Addr.Obj.zero.Coherent H ∧
+    (∀ s ∈ ([.outScript, .string] : List Addr.Reuse), s.isCall = true) :=
+  ⟨⟨Or.inl rfl, Or.inl rfl⟩, by decide⟩
+
+/-- Where coherent objects come from: (a) any object whose two caches are empty (`new(BtcAddr)`,
+    `NewAddrFromHash160`, `NewAddrFromPubkey`, the segwit branch of `NewAddrFromString`); (b) the object the Base58
+    branch of `NewAddrFromString` builds for an accepted string — Version, Hash160, Checksum = payload bytes 21..24,
+    Enc58str = the string typed. -/
+theorem reuse_start_coherent (H : Addr.Hashes) :
+    (∀ seg ver h, Addr.Obj.Coherent H ⟨seg, [], none, ver, h⟩) ∧
+    (∀ hs a dec, 4 ≤ hs.length → ¬ Addr.segwitPrefix hs → Base58.decode hs = some dec →
+      Addr.fromString H hs = .ok a →
+      Addr.Obj.Coherent H ⟨none, hs, some (dec.drop 21), dec.headD 0, (dec.drop 1).take 20⟩) :=
+  ⟨fun _ _ _ => ⟨Or.inl rfl, Or.inl rfl⟩,
+   fun hs a dec hlen hp hd h => Addr.Obj.parsed_b58_coherent H hs hlen hp a dec hd h⟩
+
+/-- non-vacuity of (b): side conditions as for `b58check_accept_iff` (example there) -/
+example : 4 ≤ ([49, 49, 49, 49] : Bytes).length ∧ ¬ Addr.segwitPrefix [49, 49, 49, 49] :=
+  ⟨by simp, Addr.not_prefix_of_first _ _ (by decide)⟩
+
+/-- What is true WITHOUT the reset (why the callers write `ad.Enc58str = ""`): the string cache is sticky — once
+    Enc58str is non-empty, assigning SegwitProg, Version, Hash160 or Checksum does not change what `String()`
+    returns. This is the code's documented-by-use contract, not a defect; `OutScript()` has no such cache
+    (`reuse_outscript_ignores_earlier_calls`). -/
+theorem reuse_string_cache_sticky (H : Addr.Hashes) (o : Addr.Obj) (h : o.enc ≠ []) (op : Addr.Op)
+    (hop : op.isCall = false) (hne : ∀ s, op ≠ .setEnc s) : ((o.apply H op).string H).1 = o.enc := by
+  cases op <;> simp only [Addr.Op.isCall, Bool.true_eq_false] at hop
+  · exact Addr.Obj.string_of_enc_ne H _ h
+  · exact absurd rfl (hne _)
+  · exact Addr.Obj.string_of_enc_ne H _ h
+  · exact Addr.Obj.string_of_enc_ne H _ h
+  · exact Addr.Obj.string_of_enc_ne H _ h
+
+/-- non-vacuity: an object with a cached string, re-pointed by assigning SegwitProg only -/
+example : (⟨none, [49], none, 0, []⟩ : Addr.Obj).enc ≠ [] ∧ (Addr.Op.setSeg none).isCall = false ∧
+    ∀ s, Addr.Op.setSeg none ≠ .setEnc s := ⟨by simp, rfl, fun _ => by simp⟩
+
 /-
   -- OPEN: error detection for FOUR substitutions (BIP173's "up to 4"). Full statement:
   --   `bech32_detects_le3_substitutions` with `≤ 4` in place of `≤ 3`. Exact reduction (same lemmas as weight 3:
@@ -482,6 +562,11 @@ theorem segwit_detects_le3_substitutions (hrp s s' p p' : Bytes) (v : Nat)
   --   (`segwit_encode_decode`: an accepted string is, up to case, THE encoding of what it decodes to, so a
   --   corrupted string is never silently accepted as the original destination); the ≤4-edit neighbourhood is
   --   searched by the correspondence run against the BIP173/350 reference (mutation stream), not by a theorem.
+  -- CORRESPONDENCE ONLY (re-used objects): that `btc.BtcAddr` has no state besides the exported fields that `String()` /
+  --   `OutScript()` consult is built into `Addr.Obj`; it is checked of the real code by the `hist` stream (every call on a
+  --   re-used object against the same call on a new object with the same exported fields), not by a theorem. The Go
+  --   `SegwitProg.Version` is an int (negative values are outside the model, as for `segwitEncode`); `Pubkey`, `Extra`
+  --   and `Owns()` (which may set `Pubkey`) are not part of `Obj` — neither method reads them.
   -- (CLOSED: finding `wif-flag-byte-unchecked` — WIF decode → re-encode was false of the code for a 38-byte payload
   --   whose flag byte is not 01; fixed in lib/btc/wallet.go, now `wif_flag_byte_refused` / `wif_encode_decode`.)
 -/
